@@ -313,6 +313,25 @@ pub fn run(ctx: &Ctx) {
         "literal",
     );
 
+    // the index step and the membership test applied to operands that are themselves paths into an input field, `facts`
+    // or a symbol (the table's rows for index / contains do not depend on where the operand comes from)
+    let rooted = super::c10::rooted_path_cases();
+    ctx.enumerate(
+        "index-and-membership-on-paths",
+        rooted.len() as u64,
+        true,
+        |i, acc| {
+            let case = &rooted[i as usize];
+            acc.cell(&format!("rooted:{}", root_sig(&case.expr)), true);
+            if i % 499 == 0 {
+                acc.sample("rooted", || case.render().chars().take(240).collect());
+            }
+            check(case)
+        },
+        |i| rooted[i as usize].to_json(),
+        "evalcase",
+    );
+
     let c2 = Cells2::new(pool::reduced());
     ctx.enumerate(
         "depth2-reduced",
